@@ -24,7 +24,7 @@ var commonAssume = []string{
 
 var propMeta = map[string]meta{
 	"C14": {
-		rule:         "one evaluation = one simulated run: a seeded plan (1-3 rule lists over a small host alphabet incl. hash-colliding names, String/File backing, read-buffer knob, cold or partly warm cache, 2..32 caller tasks, each a sequence of DNS/web/MatchAll/Match/cosmetic queries drawn from a small shared request pool with one-field-apart neighbours) executed under the seeded cooperative scheduler (strategies: random, sticky, PCT depth 1-3, herd; 2% of the runs release once a task in front of a held lock to exercise non-blocking lock attempts) at hand-placed yield points (before and inside the cache critical sections, around the list mutex, between Seek and read and between block reads, around lazy compilation, pool get/put, after each retrieval) plus automatic yield points that cmd/astyield inserts into a scratch copy in front of synchronisation operations without a hand-placed hook; every answer (order and multiplicity included) is compared with the answer of the same query run alone on a separate storage built from the same plan; deadlocks are detected (no enabled task; or, after a run had to be abandoned, all goroutines blocked); the race-build phase re-executes the same run indices through a hand-off the race detector cannot see. Non-trivial = at least one preemption of a still-enabled task and more steps than 2x tasks. Distinct = distinct hash of the (task, point, object) event sequence plus all answers.",
+		rule:         "one evaluation = one simulated run: a seeded plan (1-3 rule lists over a small host alphabet incl. hash-colliding names, String/File backing, read-buffer knob, cold or partly warm cache, 2..32 caller tasks, each a sequence of DNS/web/MatchAll/Match/cosmetic queries drawn from a small shared request pool with one-field-apart neighbours) executed under the seeded cooperative scheduler (strategies: random, sticky, PCT depth 1-3, herd; 2% of the runs release once a task in front of a held lock to exercise non-blocking lock attempts) at hand-placed yield points (before and inside the cache critical sections, around the list mutex, between Seek and read and between block reads, around lazy compilation, pool get/put, after each retrieval) plus automatic yield points that cmd/astyield inserts into a scratch copy in front of synchronisation operations without a hand-placed hook; every answer (order and multiplicity included) is compared with the answer of the same query run alone on a separate storage built from the same plan; deadlocks are detected (no enabled task; or, after a run had to be abandoned, all goroutines blocked) and bounded progress is demanded of a fair schedule (at 50x the sequential step count the run goes on least-recently-run-first for as many steps again); the race-build phase re-executes the same run indices through a hand-off the race detector cannot see. Non-trivial = at least one preemption of a still-enabled task and more steps than 2x tasks. Distinct = distinct hash of the (task, point, object) event sequence plus all answers.",
 		stateMeasure: "HyperLogLog estimate (2^14 registers, ~0.8% std error) over per-decision abstract states = vector of the yield point every task is parked at",
 		real:         commonReal,
 		stub:         []string{"none in this check (list files are real files in a scratch directory)"},
@@ -34,7 +34,7 @@ var propMeta = map[string]meta{
 		}, commonAssume...),
 	},
 	"C13": {
-		rule:         "one evaluation = one simulated query history on long-lived engines (DNSEngine, Engine, NetworkEngine over one storage): the history is planned first (seeded lists, 1..400 operations mixing DNS/web/MatchAll/Match/cosmetic queries with neighbours that differ in exactly one field - client name/IP/tags/record type, content type, URL path, source page, cosmetic host - and with repeats and rare request shapes (upper case, trailing dot, IP literals, 60-byte labels, URLs over 4 KiB); derived evaluations (DNSRewrites, DNSRewritesAll, GetDNSBasicRule, GetBasicResult, GetCosmeticOption, NewMatchingResult) on any of the last 16 results; request-pool flushes by double GC; cold or pre-warmed cache; in one run of eight a flood of 150-1500 distinct requests whose first dozen are asked again); then the fresh answer of every distinct request is computed in ANOTHER PROCESS, each on a brand-new storage and engine, in reverse order of first appearance; then the history is executed. After every query the answer must equal the fresh one, after every step every retained earlier result must equal its snapshot, the input fields of the caller's request object must be unchanged. Non-trivial = >= 3 queries, at least one repeat or one-field-apart pair, and at least one derived evaluation on an old result. Distinct = distinct hash of the history's (request, answer) sequence.",
+		rule:         "one evaluation = one simulated query history on long-lived engines (DNSEngine, Engine, NetworkEngine over one storage): the history is planned first (seeded lists, 1..400 operations mixing DNS/web/MatchAll/Match/cosmetic queries with neighbours that differ in exactly one field - client name/IP/tags/record type/Answer flag, content type, URL path, URL case, source page, client of a URL-style request, cosmetic host - and with repeats and rare request shapes (upper case, trailing dot, IP literals, 60-byte labels, URLs over 4 KiB); derived evaluations (DNSRewrites, DNSRewritesAll, GetDNSBasicRule, GetBasicResult, GetCosmeticOption, NewMatchingResult) on any of the last 16 results; request-pool flushes by double GC; cold or pre-warmed cache; in one run of eight a flood of 150-1500 distinct requests whose first dozen are asked again); then the fresh answer of every distinct request is computed in ANOTHER PROCESS (replaced by a new one every 16 runs, so that process-wide state of the library is young there and old in the worker), each on a brand-new storage and engine, in reverse order of first appearance; then the history is executed. After every query the answer must equal the fresh one, after every step every retained earlier result must equal its snapshot, the input fields of the caller's request object must be unchanged. Non-trivial = >= 3 queries, at least one repeat or one-field-apart pair, and at least one derived evaluation on an old result. Distinct = distinct hash of the history's (request, answer) sequence.",
 		stateMeasure: "HyperLogLog estimate over per-step hidden states = (rule-cache size, pool flushed-or-not since last DNS query, number of retained results, queries so far)",
 		real:         commonReal,
 		stub:         []string{"none"},
@@ -43,14 +43,14 @@ var propMeta = map[string]meta{
 		}, commonAssume...),
 	},
 	"C11": {
-		rule:         "one evaluation = one simulated I/O run: seeded list contents from line classes (network/host/cosmetic rules, comments, blank, invalid, leading/trailing blanks, multi-byte UTF-8, invalid UTF-8, NUL, BOM, exotic white space, stray CR at any position, lines whose kind is easy to get wrong, LF/CRLF/mixed endings, no final newline, lines within +-20 bytes of 1x/2x/3x the read buffer, 4097..9000 bytes, rarely > 64 KiB, rarely 18-48 thousand lines so that offsets pass 1 MiB), 1-4 lists with distinct ids from a pool of 16 incl. negative, zero, extreme and >16-bit ones, IgnoreCosmetic on/off; the stream the scanner reads is cut by a seeded read-size schedule (1..k bytes per Read, k in 1..8192); every storage configuration (in-memory, file with the default buffer, file with a knob buffer of 1/2/3/7/64/4096 bytes, seeded mix) is scanned twice (after a scan abandoned half-way) and compared with the reference; the index reported with a rule must be the same for every backing and distinct per rule (no particular packing is demanded); every yielded index is retrieved in a seeded permutation three times through the storage and once through the list, and through a second storage over the same list objects; the block reader is run at yielded offsets over short-read readers; engines over all backings are compared on requests derived from the lists. Reference = split on LF + the repository's own rules.NewRule per line. Non-trivial = at least one yielded rule and (a line spanning more than one read block or a chunk boundary inside CRLF/UTF-8 or >1 list). Distinct = distinct hash of (contents, ids, read schedule).",
+		rule:         "one evaluation = one simulated I/O run: seeded list contents from line classes (network/host/cosmetic rules, comments, blank, invalid, leading/trailing blanks, multi-byte UTF-8, invalid UTF-8, NUL, BOM, exotic white space, stray CR at any position, lines whose kind is easy to get wrong, LF/CRLF/mixed endings, no final newline, lines within +-20 bytes of 1x/2x/3x the read buffer, 4097..9000 bytes, rarely > 64 KiB, rarely one line of 1.0-1.2 MiB, consecutive lines equal under Unicode case folding, ids and lines that glue ambiguously (1/"10.0.0.1 h" vs 11/"0.0.0.1 h"), rarely 18-48 thousand lines so that offsets pass 1 MiB), 1-4 lists with distinct ids from a pool of 16 incl. negative, zero, extreme and >16-bit ones, IgnoreCosmetic on/off; the stream the scanner reads is cut by a seeded read-size schedule (1..k bytes per Read, k in 1..8192); every storage configuration (in-memory, file with the default buffer, file with a knob buffer of 1/2/3/7/64/4096 bytes, seeded mix) is scanned twice (after a scan abandoned half-way) and compared with the reference; the index reported with a rule must be the same for every backing and distinct per rule (no particular packing is demanded); every yielded index is retrieved in a seeded permutation three times through the storage and once through the list, and through a second storage over the same list objects; the block reader is run at yielded offsets over short-read readers; engines over all backings are compared on requests derived from the lists. Reference = split on LF + the repository's own rules.NewRule per line. Non-trivial = at least one yielded rule and (a line spanning more than one read block or a chunk boundary inside CRLF/UTF-8 or >1 list). Distinct = distinct hash of (contents, ids, read schedule).",
 		stateMeasure: "HyperLogLog estimate over (list content hash, buffer size, chunk-size bound) configurations",
 		real:         commonReal,
 		stub:         []string{"ChunkReader (io.Reader with seeded read sizes) feeds NewRuleScanner and readLine in the read-schedule sub-checks; file-backed sub-checks use real files"},
 		assumptions:  commonAssume,
 	},
 	"C19": {
-		rule:         "one evaluation = one execution of a query history or concurrent schedule with ONE fault plan. For each sampled (lists, history) every fault instant k, every fault kind (storage Close, file Close, handle swapped for a closed descriptor, handle swapped for a directory descriptor so that Seek works and Read fails, stub permanent error, stub transient error for 1 or 3 retrievals) and every target list is executed, plus double faults (exhaustive in instant x kind x target for that history, up to 1500 plans per base (400 in the quick tier), seeded sample beyond; the race-build phase samples 40); in a quarter of the bases the queries after the fault are repeated 6 or 40 times (error counters); rarely the base is one file-backed list of 8.5-11.5 thousand rules that a flood materialises completely before the fault (bounded caches). For each sampled concurrent base schedule every scheduling step is a fault instant; the fault is performed by a task of its own that the scheduler releases at that instant, so it can land between a cache miss and the insert, between Seek and read, between two block reads of one line. Oracle per query at/after the fault: no panic; no nil rule; returned network rules are a sub-multiset of the fault-free answer; returned host rules are in the fault-free answer or, if that answer stopped at a network rule, truly match the name; NetworkRule and every DNSRewrites() element are among the returned NetworkRules; matched is consistent; rules served by queries that completed before this one started (lines unique in their list) or living in in-memory lists are still present; before the fault answers equal the fault-free ones exactly. Non-trivial = the fault changed at least one answer or landed with a query in flight. Distinct = distinct hash of (plan, fault plan, answers).",
+		rule:         "one evaluation = one execution of a query history or concurrent schedule with ONE fault plan. For each sampled (lists, history) every fault instant k, every fault kind (storage Close, file Close, handle swapped for a closed descriptor, handle swapped for a directory descriptor so that Seek works and Read fails, stub permanent error, stub transient error for 1 or 3 retrievals) and every target list is executed, plus double faults (exhaustive in instant x kind x target for that history, up to 1500 plans per base (400 in the quick tier), seeded sample beyond; the race-build phase samples 40); in a quarter of the bases the queries after the fault are repeated 6 or 40 times (error counters); rarely the base is one file-backed list of 8.5-39 thousand rules (thorough tier: up to 72 thousand) that a flood materialises completely before the fault (bounded caches), or a list of 90-250 KiB of which the flood materialises three rules in four (block caches); one base in eight holds a directed constellation: a rule reachable through two keys of an index ($domain rule on two domains, hosts line with two names) that is asked through one key at the start and through the other at the end of the history, or two hosts rules with colliding name hashes in two lists. For each sampled concurrent base schedule every scheduling step is a fault instant; the fault is performed by a task of its own that the scheduler releases at that instant, so it can land between a cache miss and the insert, between Seek and read, between two block reads of one line. Oracle per query at/after the fault: no panic; no nil rule; returned network rules are a sub-multiset of the fault-free answer; returned host rules are in the fault-free answer or, if that answer stopped at a network rule, truly match the name; NetworkRule and every DNSRewrites() element are among the returned NetworkRules; matched is consistent; rules served by queries that completed before this one started (lines unique in their list) or living in in-memory lists are still present; results handed out earlier do not change after the fault. A wrong answer, panic, changed result or deadlock while every list is still readable is not a C19 violation: the run is left to C11/C13/C14 and counted (probe anomaly_before_any_fault_left_to_C11_C13_C14). Non-trivial = the fault changed at least one answer or landed with a query in flight. Distinct = distinct hash of (plan, fault plan, answers).",
 		stateMeasure: "HyperLogLog estimate over per-decision abstract states (yield-point vector x fault-active flag) in the concurrent part, and (history prefix length, fault kind, target) in the sequential part",
 		real:         commonReal,
 		stub:         []string{"FaultyRuleList: an implementation of the public filterlist.RuleList interface that wraps a real list and returns (nil, error) while a fault is active (kinds stub_permanent, stub_transient); all other fault kinds act on real files/descriptors"},
